@@ -82,4 +82,21 @@ theorem lapDet_eq : ∀ (n : Nat) (A : Mat α n n), lapDet n A = (toM A).det
 
 end det
 
+/-- Eigen's LDLᵀ contract `A = Pᵀ L D Lᵀ P` with `D ≥ 0` makes the factor the code builds,
+    `Pᵀ L √D`, a square root of `A` (no definiteness: positive *semi*-definite `A` included). -/
+theorem ldlt_factor {n : Type*} [Fintype n] [DecidableEq n] (A L Pm : Matrix n n ℝ) (d : n → ℝ)
+    (hd : ∀ i, 0 ≤ d i) (h : A = Pmᵀ * L * diagonal d * Lᵀ * Pm) :
+    (Pmᵀ * L * diagonal (fun i => Real.sqrt (d i))) *
+      (Pmᵀ * L * diagonal (fun i => Real.sqrt (d i)))ᵀ = A := by
+  have hdd : diagonal (fun i => Real.sqrt (d i)) * diagonal (fun i => Real.sqrt (d i)) = diagonal d := by
+    rw [diagonal_mul_diagonal]
+    congr 1
+    funext i
+    exact Real.mul_self_sqrt (hd i)
+  rw [h, transpose_mul, transpose_mul, transpose_transpose, diagonal_transpose]
+  calc Pmᵀ * L * diagonal (fun i => Real.sqrt (d i)) * (diagonal (fun i => Real.sqrt (d i)) * (Lᵀ * Pm))
+      = Pmᵀ * L * (diagonal (fun i => Real.sqrt (d i)) * diagonal (fun i => Real.sqrt (d i))) * Lᵀ * Pm := by
+        simp only [Matrix.mul_assoc]
+    _ = Pmᵀ * L * diagonal d * Lᵀ * Pm := by rw [hdd]
+
 end BFL.GPFProofs
